@@ -315,7 +315,9 @@ func (r *c09Runner) enumerate(thorough bool) {
 	const c, m = int64(100), int64(256)
 	u := func(v int64) c09RL { return c09RL{v * c, v * m} }
 	opt := func(has bool, v int64) c09Opt { return c09Opt{has, v * c, v * m} }
-	pod := func(prio, qos, phase string, req int64) c09Pod { return c09Pod{Prio: prio, Qos: qos, Phase: phase, Req: u(req)} }
+	pod := func(prio, qos, phase string, req int64) c09Pod {
+		return c09Pod{Prio: prio, Qos: qos, Phase: phase, Req: u(req)}
+	}
 	term := func(p c09Pod) c09Pod { p.Term = true; return p } // being deleted, still counts
 	podSets := [][]c09Pod{{}, {pod("prod", "LS", "Running", 20)}, {pod("mid", "LS", "Running", 20)}, {pod("batch", "BE", "Running", 20)},
 		{pod("none", "LS", "Running", 20)}, {pod("none", "BE", "Running", 20)}, {pod("prod", "LS", "Succeeded", 20)},
